@@ -354,6 +354,8 @@ def _job_worker(idx):
         summary['steps'] += m.steps
         for k, v in m.fn_steps.items():
             summary['fn_steps'][k] = summary['fn_steps'].get(k, 0) + v
+        for k, v in m.cov.items():
+            summary.setdefault('cov', {}).setdefault(k, set()).update(v)
         for k, v in m.ext_hits.items():
             summary['ext_hits'][k] = summary['ext_hits'].get(k, 0) + v
         for k, v in list(m.libm_log.items())[:40]:
